@@ -73,9 +73,10 @@ def _split_all(scale):
 def probe_programs(tick, unit):
     P = []
     for side in ('long', 'short'):
-        for tp in ([[2, 0.5]], [[2, 1]], [[2, 2]], [[1, 0.5], [1, 1]], [[1, 1], [1, 2]], [[1, 0.5], [1, 2]]):
+        # the last menu has two exits at one price: once the first has filled, the rest of the minute OPENS exactly at the second
+        for tp in ([[2, 0.5]], [[2, 1]], [[2, 2]], [[1, 0.5], [1, 1]], [[1, 1], [1, 2]], [[1, 0.5], [1, 2]], [[0.5, 1], [0.5, 1], [1, 2]]):
             for sl in ([[2, 0.5]], [[2, 1]], [[2, 2]]):
-                reacts = [None] if len(tp) == 1 else [None, {'sl': 'breakeven'}, {'sl': 'all', 'sl_d': 0.5, 'tp': 'all', 'tp_d': 1.5},
+                reacts = [None] if len(tp) != 2 else [None, {'sl': 'breakeven'}, {'sl': 'all', 'sl_d': 0.5, 'tp': 'all', 'tp_d': 1.5},
                                                            {'sl': 'all', 'sl_d': -0.5, 'tp': 'all', 'tp_d': 1.5}, {'sl': 'all', 'sl_d': -0.5, 'tp': 'all', 'tp_d': 2},
                                                            {'liquidate': True}, {'reenter': [[1, 0]]}]      # MARKET orders from the fill handler
                 for rc in reacts:
